@@ -31,6 +31,9 @@ CLAIMED = {
   "C08": ("path-exhaustive symbolic execution of the real sort/search code over symbolic range starts and r (all marker mixtures, all listing orders) with a z3 If-oracle of the statement; potable default start through the real parser/builder",
           "for 1..3 (thorough 1..5) ranges with symbolic starts: value, deriv and deriv2 come from the range the statement selects on every path; permuted listings agree",
           NOTE + "; excluded by design: identical start and marker; which of '>= s' / '> s' wins for r > s (statement and pinned test disagree)", "3 C08"),
+  "C09": ("differential symbolic execution: grammar-generated definitions are parsed by the real pyparsing grammar/_descend_tree, their numerals become symbolic parameters, the real registries/builders produce the callable and z3 decides equality of its value at symbolic r with the same tree composed through the Python API (every path of the multi-range searches); modifiers over uninterpreted argument potentials; custom formulas through the real registration/binding code on a validated stub of cexprtk versus the formula with explicitly bound parameters; CrossHair on _key_transform",
+          "for all parameter values and all r: every generated definition (depth <= 2 quick, <= 3 thorough, incl. every modifier nested in every modifier with its own range) in every section kind denotes the API composition; sum/product/pow/trans for all argument functions; custom forms bind positionally, may call each other in either listing order, as.* and pymath.*; key normal form = key without spaces/tabs (confirmed over all paths, <= 4 characters)",
+          NOTE + "; exprtk itself is replaced by symx/exprstub.py (validated against the real cexprtk on each run); formatting variants are a concrete side layer", "3 C09"),
   "C10": ("symbolic execution of the real spline set-up and evaluation code with numpy.linalg.solve replaced by its contract (unknowns c, A.c == B); subterms polynomially identical to a row of A.c are rewritten to the row's right-hand side, z3 decides the remaining identities; equivalence of the three constructions by memoised solve (equal systems -> equal unknowns)",
           "for all detach < (r_min <) attach, all end potentials (uninterpreted functions with arbitrary value/slope/curvature at the joins) and all r: C2 joins, zero slope and continuity at r_min, region dispatch, advertised shape; as.buck4 == spline() modifier == Python classes for all parameters",
           NOTE + "; LAPACK's accuracy and singular systems are outside the claim; trusted calculus: symx/jets.py", "3 C10"),
